@@ -251,7 +251,18 @@ pub fn generate(_ctx: &mut Ctx, seed: u64, i: usize, kind: &str, always_malforme
     if kind != "affects" && rng.chance(1, 3) {
         for _ in 0..1 + rng.below(2) {
             if rng.chance(1, 2) { src += "between\n"; }
-            src += &format!("{indent}{}{tag}{}\n", lang.open, lang.close);
+            // half of the siblings carry ANOTHER value of the rule (another pattern, direction, bound) and repeat lines of the
+            // first block: what one block accepted or recorded says nothing about the next one
+            let other = rng.chance(1, 2);
+            let sib_tag = match (&tag_alt, other) {
+                (Some(t2), true) => {
+                    if let Some(v) = &alt_value { if (kind == "line-pattern" || kind == "keep-unique") && !v.is_empty() { patterns.push(v.clone()); } }
+                    t2.clone()
+                }
+                _ => tag.clone(),
+            };
+            src += &format!("{indent}{}{sib_tag}{}\n", lang.open, lang.close);
+            if other { for l in lines.iter().take(3) { src += l; src += "\n"; } }
             for _ in 0..rng.below(6) {
                 let l = if numeric && rng.chance(9, 10) { ["2", "10", "9.5", "-3", "0", "1e1", "+5", "100"][rng.below(8)].to_string() } else { rng.pick(LINES).to_string() };
                 src += &l;
